@@ -68,7 +68,12 @@ def defuse_xml(xml_source: Union[str, bytes]) -> Union[str, bytes]:
         # The purpose is to defuse not to check xml source syntax, but the scan stopped
         # before the root element: another parser (e.g. libxml2, that accepts the names
         # of XML 1.0 5th edition) could read and expand what expat refuses.
-        if ('<!ENTITY' if isinstance(xml_source, str) else b'<!ENTITY') in xml_source:
+        # (the text can also be in an encoding of 16 or 32 bits per character)
+        if isinstance(xml_source, str):
+            found = '<!ENTITY' in xml_source.replace('\0', '')
+        else:
+            found = b'<!ENTITY' in xml_source.replace(b'\0', b'')
+        if found:
             raise XMLResourceForbidden("Entities are forbidden") from None
     except OSError as err:
         raise ElementPathOSError(str(err))
